@@ -83,6 +83,17 @@ pub async fn exec(a: &Args) -> Args {
         Ok(Ok(c)) => c,
         _ => return vec![vec![2], crate::b2s("raw connect failed")],
     };
+    // a[0][3] = 2: the request goes out first, the control stream only afterwards (the order of
+    // independent streams is not the peer's to rely on)
+    let request_first = a[0].get(3).copied().unwrap_or(0) == 2;
+    let mut early_request = None;
+    if request_first {
+        if let Ok((mut s, r)) = conn.open_bi().await {
+            let _ = s.write_all(&request_bytes("/c", &[])).await;
+            early_request = Some((s, r));
+        }
+        tokio::time::sleep(PAUSE * 3).await;
+    }
     let mut control = match conn.open_uni().await {
         Ok(s) => s,
         Err(_) => return vec![vec![2], crate::b2s("open_uni failed")],
@@ -155,8 +166,16 @@ pub async fn exec(a: &Args) -> Args {
     }
     tokio::time::sleep(Duration::from_millis(120)).await;
     // now the request
-    let established: u64 = match conn.open_bi().await {
+    let opened = match early_request.take() { Some(x) => Ok(x), None => conn.open_bi().await };
+    let established: u64 = match opened {
         Ok((mut s, mut r)) => {
+            if request_first {
+                match tokio::time::timeout(Duration::from_millis(900), read_one_frame(&mut r)).await {
+                    Ok(Ok((1, _))) => { keep.push(s); 1 }
+                    Ok(Ok(_)) => 3,
+                    _ => 2,
+                }
+            } else {
             // a[3]: the request HEADERS in pieces too
             let req = request_bytes("/c", &[]);
             let mut last = 0usize;
@@ -182,6 +201,7 @@ pub async fn exec(a: &Args) -> Args {
                 }
                 Ok(Ok(_)) => 3,
                 _ => 2,
+            }
             }
         }
         Err(_) => 2,
@@ -270,7 +290,7 @@ pub fn generate(rng: &mut Rng, thorough: bool, cut_matrix: bool) -> Vec<Case> {
     let n = cs.len();
     for i in 0..n {
         let c = &cs[i];
-        if c.args[0][2] == 0 && c.args.len() <= 3 && (thorough || !cut_matrix || i % 2 == 0) {
+        if c.args[0][2] == 0 && c.args[0].len() == 3 && c.args.len() <= 3 && (thorough || !cut_matrix || i % 2 == 0) {
             let mut args = c.args.clone();
             args[0].push(1);
             cs.push(Case::new(611, args, &format!("client-role:{}", c.label)));
@@ -286,6 +306,8 @@ fn generate_server_role(rng: &mut Rng, thorough: bool, cut_matrix: bool) -> Vec<
     if !cut_matrix {
         let c = |mode: u64, b: Vec<u8>, label: &str| Case::new(611, vec![vec![mode, 0, 0], b2a(&b), vec![]], label);
         cs.push(c(3, ok.clone(), "valid"));
+        cs.push(Case::new(611, vec![vec![3, 0, 0, 2], b2a(&ok), vec![]], "request-before-control-stream"));
+        cs.push(Case::new(611, vec![vec![3, 0, 0, 2], b2a(&ok), vec![5]], "request-before-control-stream"));
         // GREASE / unknown frames after SETTINGS (C13)
         let mut b = ok.clone();
         b.extend(raw_frame(0x21, &[1, 2]));
